@@ -285,6 +285,13 @@ impl<'a> Scope<'a> {
         self.0.as_ref().borrow_mut().add(ent, diagnostics);
     }
 
+    /// Forget what was looked up for a designator.
+    /// Needed when a declaration is added to the enclosing scope after this nested scope,
+    /// which starts with a copy of the enclosing cache, has been created
+    pub fn forget_cached(&self, designator: &Designator) {
+        self.0.as_ref().borrow_mut().cache.remove(designator);
+    }
+
     pub fn make_potentially_visible(&self, visible_pos: Option<&SrcPos>, ent: EntRef<'a>) {
         self.0.as_ref().borrow_mut().make_potentially_visible(
             visible_pos,
